@@ -22,7 +22,33 @@ def run_property(pid, tier):
     rep.assumptions = list(getattr(mod, 'ASSUMPTIONS', []))
     try:
         prog = Program()
+        thorough = tier == 'thorough' and not os.environ.get('VERIF_NO_SELFTEST')
+        if thorough:
+            from sa import algebra
+            algebra.PARANOID['on'] = True
+            algebra.PARANOID['seed'] += int(os.environ.get('VERIF_SEED', '0') or 0)
         mod.run(rep, prog, tier)
+        if thorough:
+            from sa import algebra, selftest
+            algebra.PARANOID['on'] = False
+            rep.extra['algebra_crosscheck'] = {'identities_rechecked_by_exact_random_evaluation': algebra.PARANOID['checked'],
+                                               'not_evaluable': algebra.PARANOID['skipped'], 'disagreements': len(algebra.PARANOID['disagreements'])}
+            if algebra.PARANOID['disagreements']:
+                raise AnalysisError('the algebra normaliser and exact random evaluation disagree on %d identities, e.g. %r'
+                                    % (len(algebra.PARANOID['disagreements']), algebra.PARANOID['disagreements'][0]))
+            if not any(not o.ok for o in rep.obls):
+                try:
+                    st = selftest.sweep(pid, sorted(rep.analysed['functions']), seed=int(os.environ.get('VERIF_SEED', '0') or 0))
+                except Exception as e:      # the sweep is an extra; its infrastructure never decides the verdict
+                    st = {'error': '%s: %s' % (type(e).__name__, e)}
+                rep.extra['sensitivity_sweep'] = st
+                if 'error' not in st:
+                    print('sensitivity sweep: seeds %d/%d reported, curated edits %d/%d reported, automatic mutants %d/%d reported (informational; %d generated)'
+                          % (st['seeds']['reported'], st['seeds']['run'], st['curated']['reported'], st['curated']['run'],
+                             st['auto']['reported'], st['auto']['run'], st['auto']['generated']))
+                    for k in ('seeds', 'curated'):
+                        for nme in st[k]['missed']:
+                            print('SENSITIVITY-MISS property=%s %s %s' % (pid, k, nme))
         return rep.finish()
     except AnalysisError as e:
         print('ANALYSIS-ERROR property=%s: %s' % (pid, e))
